@@ -10,6 +10,7 @@ package main
 
 import (
 	"encoding/json"
+	"errors"
 	"fmt"
 	"sort"
 	"strings"
@@ -45,6 +46,20 @@ func (c *checker) viol(class, format string, a ...any) {
 }
 
 func (c *checker) count(k string) { c.res.Counters[k]++ }
+
+// harnessClass marks a record that is not a verdict: the machinery (interpreter, scripted driver) could not evaluate
+// something.  The parent turns it into exit 2.
+const harnessClass = "HARNESS-ERROR"
+
+// serviceFailed: MergeStackTraces returned an error.  If it comes from the harness's own database stand-in it is a
+// machinery failure; otherwise the real service could not produce a flame graph from well-formed rows.
+func (c *checker) serviceFailed(err error) {
+	if errors.Is(err, errHarness) || strings.Contains(err.Error(), errHarness.Error()+":") {
+		c.viol(harnessClass, "%v", err)
+		return
+	}
+	c.viol("merge_stack_traces_failed", "%v", err)
+}
 
 var pushedName = func() map[string]bool {
 	m := map[string]bool{}
